@@ -38,7 +38,7 @@ def tree_hash():
     for sub in ('mirvc', 'lib', 'kani', 'verus', 'spec', 'replay/src'):
         d = os.path.join(VERIF, sub)
         for root, dirs, files in os.walk(d):
-            dirs[:] = sorted(x for x in dirs if x != '__pycache__')
+            dirs[:] = sorted(x for x in dirs if x not in ('__pycache__', 'dev'))   # verus/dev holds authoring copies only
             for f in sorted(files):
                 if f.endswith(('.pyc',)):
                     continue
